@@ -162,7 +162,23 @@ class CtxModel(Model):
             return VModule("ctx:noop")
         return NotImplemented
 
+    def call_global(self, st, name, node):
+        if self.eng.imports.get(name, "").endswith("ThreadPoolExecutor"):
+            self.eng.eval_args(st, node)
+            return VModule("ctx:executor")
+        return NotImplemented
+
+    def call_other_method(self, st, recv, name, node):
+        # executor.map(f, xs): ordered, lazy in results, re-raises (A-STD)
+        if isinstance(recv, VModule) and recv.name == "ctx:executor" and \
+                name == "map":
+            sm = self.lib.stream_model()
+            return sm.do_map(st, node)
+        return NotImplemented
+
     def ctx_enter(self, st, ctx, line):
+        if isinstance(ctx, VModule) and ctx.name == "ctx:executor":
+            return ctx
         if isinstance(ctx, VModule) and ctx.name == "ctx:noop":
             return VNone()
         if isinstance(ctx, VRef):
@@ -172,7 +188,8 @@ class CtxModel(Model):
         return None
 
     def ctx_exit(self, st, ctx, ex, line):
-        if isinstance(ctx, VModule) and ctx.name == "ctx:noop":
+        if isinstance(ctx, VModule) and ctx.name in ("ctx:noop",
+                                                     "ctx:executor"):
             return "propagate"
         if isinstance(ctx, VRef):
             fc = self.eng.reg.find_method(ctx.cls, "__exit__")
